@@ -100,6 +100,9 @@ func c19Stops(n, model int) []generate.GradientStop {
 		off := float32(0)
 		if n > 1 {
 			off = float32(i) / float32(n-1)
+			if model%2 == 1 {
+				off = 0.25 + off/2 // first stop above 0, last below 1
+			}
 		}
 		st[i] = generate.GradientStop{Offset: off, Color: c19Color(model, i, n)}
 	}
@@ -256,7 +259,6 @@ func c19Check(w *mc.W, cs *c19Case) {
 		w.HarnessError("selector state not reached: %d/%d", vm.CSel, vm.NSel)
 		return
 	}
-	n0 := len(rd.Calls)
 	stops := c19Stops(cs.NStops, cs.Model)
 	spread := generate.GradientSpread(cs.Spread)
 	shape := 1
@@ -277,6 +279,15 @@ func c19Check(w *mc.W, cs *c19Case) {
 		}
 		return g.SetEllipticalGradient(p[0], p[1], p[2], p[3], p[4], p[5], spread, stops)
 	}
+	if cs.CSel%4 >= 2 {
+		// the same Generator issued the same call for another destination just before
+		var other rec.Dest
+		g.SetDestination(&other)
+		g.Reset(c19VB, ivg.DefaultPalette)
+		call(stops)
+		g.SetDestination(rd)
+	}
+	n0 := len(rd.Calls)
 	err := call(stops)
 	newCalls := rd.Calls[n0:]
 	// expected outcome class
@@ -489,6 +500,9 @@ func c19Check(w *mc.W, cs *c19Case) {
 			fail("paint:stops", fmt.Sprintf("paint has shape %d spread %d colours %v offsets %v; requested shape %d spread %d stops %v", paint.Shape, paint.Spread, paint.Colors, paint.Offsets, shape, cs.Spread, stops))
 			return
 		}
+		// judged in rectangle-relative pixel space, whatever source point Draw was given
+		paint.M[2] += paint.M[0]*float64(sp.X) + paint.M[1]*float64(sp.Y)
+		paint.M[5] += paint.M[3]*float64(sp.X) + paint.M[4]*float64(sp.Y)
 		sx := float64(c19Rect.Dx()) / float64(c19VB.MaxX-c19VB.MinX)
 		sy := float64(c19Rect.Dy()) / float64(c19VB.MaxY-c19VB.MinY)
 		// Transform() is pixel -> gradient: pull back through the pixel map
@@ -507,7 +521,7 @@ func c19Check(w *mc.W, cs *c19Case) {
 			pm := paint.M
 			for py := 0; py < c19Rect.Dy(); py += 4 {
 				for px := 0; px < c19Rect.Dx(); px += 4 {
-					cx, cy := float64(px+sp.X)+0.5, float64(py+sp.Y)+0.5
+					cx, cy := float64(px)+0.5, float64(py)+0.5
 					o := pm[0]*cx + pm[1]*cy + pm[2]
 					if shape == 1 {
 						o = math.Hypot(o, pm[3]*cx+pm[4]*cy+pm[5])
